@@ -117,6 +117,17 @@ def r12_b(ctx):
                             and isinstance(a.value, ast.Call) and isinstance(a.value.func, ast.Subscript) \
                             and norm(a.value.func.value) == 'MATH_TOKEN_TO_ENV' and norm(a.value.func.slice).endswith('.category'):
                         ok = True
+    if not ok:
+        # other spellings of the table look-up (TABLE.get(tok.category) with a None test, ...)
+        from .model import resolve_locals
+        for n in ast.walk(d.node):
+            if isinstance(n, ast.Call) and isinstance(n.func, ast.Name) and n.func.id == 'read_math_env' and len(n.args) > 1:
+                arg = resolve_locals(d.node, n.args[1])
+                t = norm(arg)
+                if 'MATH_TOKEN_TO_ENV' in t and '.category' in t:
+                    ok = True
+        if not ok and not any(isinstance(x, ast.Name) and x.id == 'MATH_TOKEN_TO_ENV' for x in ast.walk(d.node)):
+            raise AnalysisError('read_expr no longer consults MATH_TOKEN_TO_ENV: dispatcher shape not recognised by R12.b')
     rr.ob(ok, {'dispatcher': 'class from MATH_TOKEN_TO_ENV[<opening token>.category]'})
     if not ok:
         rr.fail(Finding('R12.b', 'reader', d.qual, 'read_math_env(...) argument', 'the math node handed to the region '
@@ -130,7 +141,7 @@ NAMED_MATH_REFERENCE = ('align', 'align*', 'alignat', 'array', 'displaymath', 'e
 
 def r12_c(ctx):
     repo = ctx.repo
-    rr = RuleResult('R12.c', 'named math environments switch the reader to math mode', floor=3)
+    rr = RuleResult('R12.c', 'named math environments switch the reader to math mode', floor=2)
     names = repo.fold_global('tokens', 'MATH_ENV_NAMES')
     missing = [n for n in NAMED_MATH_REFERENCE if n not in names]
     rr.ob(not missing, {'named_math_environments': len(names)})
@@ -151,6 +162,19 @@ def r12_c(ctx):
                             mode_var = s.targets[0].id
                     except Unfoldable:
                         pass
+    # alternative shape: mode_var = MODE_MATH if <x>.name in MATH_ENV_NAMES else <mode>
+    for n in ast.walk(d.node):
+        if isinstance(n, ast.Assign) and len(n.targets) == 1 and isinstance(n.targets[0], ast.Name) and isinstance(n.value, ast.IfExp) \
+                and isinstance(n.value.test, ast.Compare) and isinstance(n.value.test.ops[0], ast.In) \
+                and norm(n.value.test.comparators[0]) == 'MATH_ENV_NAMES':
+            try:
+                if Folder(repo, d.module).ev(n.value.body) == math_mode:
+                    fake = ast.If(n.value.test, [n], [])
+                    ast.copy_location(fake, n)
+                    sets.append(fake)
+                    mode_var = n.targets[0].id
+            except Unfoldable:
+                pass
     # alternative shape: the math branch calls the body reader directly with the math-mode constant
     direct = []
     for n in ast.walk(d.node):
